@@ -79,7 +79,7 @@ type Inner2 struct {
 // families whose construction FAILS part-way through a recursive definition
 // (an untagged exported field after the self reference)
 type BadRec struct {
-	Next *BadRec `plenc:"1"`
+	Next *BadRec  `plenc:"1"`
 	Kids []BadRec `plenc:"2"`
 	X    int
 }
@@ -109,6 +109,24 @@ type ProtoMapHolder struct {
 	P map[string]int  `plenc:"4"`
 }
 
+// construction fails at a field of an unsupported kind (the failing lookup reaches the registry)
+type BadKindRec struct {
+	Next *BadKindRec  `plenc:"1"`
+	Kids []BadKindRec `plenc:"2"`
+	C    complex128   `plenc:"3"`
+}
+
+type GoodViaBadKind struct {
+	B *BadKindHolder `plenc:"1"`
+	V int            `plenc:"2"`
+}
+
+type BadKindHolder struct {
+	G *GoodViaBadKind        `plenc:"1"`
+	M map[string]*BadKindRec `plenc:"2"`
+	C chan int               `plenc:"3"`
+}
+
 // self-referential defined types without a struct in the cycle (finding F11)
 type PSelf *PSelf
 type SSelf []SSelf
@@ -130,7 +148,7 @@ func regStatic(v interface{}) {
 func init() {
 	for _, v := range []interface{}{MyI16(0), MyI32(0), MyI64(0), MyU8(0), MyU32(0), MyUint(0), MyInt(0), MyInt8(0), MyU16(0), MyU64(0), MyStr(""), MyBool(false),
 		MyF64(0), MyF32(0), MyBytes(nil), MyTime{}, MyStrs(nil), MyInts(nil), MyMap(nil),
-		Rec{}, MutA{}, MutB{}, RecMap{}, Inner{}, Outer{}, Inner2{}, BadRec{}, GoodViaBad{}, BadHolder{}, BadRec2{}, ProtoMapHolder{}, PSelf(nil), SSelf(nil), MSelf(nil), PSelfA(nil), PSelfB(nil), SSelfHolder{}} {
+		Rec{}, MutA{}, MutB{}, RecMap{}, Inner{}, Outer{}, Inner2{}, BadRec{}, GoodViaBad{}, BadHolder{}, BadRec2{}, ProtoMapHolder{}, PSelf(nil), SSelf(nil), MSelf(nil), PSelfA(nil), PSelfB(nil), SSelfHolder{}, BadKindRec{}, GoodViaBadKind{}, BadKindHolder{}} {
 		regStatic(v)
 	}
 }
